@@ -50,7 +50,10 @@ var knownList []lib.Known
 // checked in a scratch tree against the model with the corresponding flag switched off.
 var curDev = "cur"
 
-// the deviation flags of the model (Dev in Model.lean) and the known finding each one stands for
+// the deviation flags of the model (Dev in Model.lean) and the known finding each one stands for.
+// Only the flags whose finding is still listed under "known" in known_findings.json take part in
+// the classification of a deviation (today: f alone; l, t, g are repaired and listed as fixed, so a
+// reappearance of one of them is a plain violation).
 var devFlags = []struct {
 	letter string
 	id     string
@@ -68,6 +71,17 @@ func flagID(letter byte) string {
 		}
 	}
 	return "?"
+}
+
+// knownLetters: those of the given flag letters whose known finding is listed.
+func knownLetters(among string) string {
+	out := ""
+	for _, d := range devFlags {
+		if strings.Contains(among, d.letter) && lib.HasKnown(knownList, d.id) {
+			out += d.letter
+		}
+	}
+	return out
 }
 
 // subsets of the letters ordered by size (the empty set is "-")
@@ -297,7 +311,7 @@ func judge(cr *caseRun, ans []string, pend *[]pending, reqs2 *[]string) {
 			}
 			if normSet(fr.implDiff) != spec {
 				rep.Count("impl.diff_deviates."+fr.fl, 1)
-				p := pending{cr: cr, fr: fr, what: "diff", impl: fr.implDiff, spec: spec, subs: subsets("lftg"), q0: len(*reqs2), classHd: "diff:" + fr.fl}
+				p := pending{cr: cr, fr: fr, what: "diff", impl: fr.implDiff, spec: spec, subs: subsets(knownLetters("lftg")), q0: len(*reqs2), classHd: "diff:" + fr.fl}
 				for _, s := range p.subs {
 					*reqs2 = append(*reqs2, "diff\t"+fr.fl+"\t"+s+"\t0\t"+cr.a+"\t"+cr.b+"\t"+cr.ig)
 				}
@@ -335,7 +349,7 @@ func judge(cr *caseRun, ans []string, pend *[]pending, reqs2 *[]string) {
 			}
 			if fr.implMatch != specM {
 				rep.Count("impl.match_deviates."+fr.fl, 1)
-				p := pending{cr: cr, fr: fr, what: "match", impl: fr.implMatch, spec: specM, subs: subsets("fg"), q0: len(*reqs2), classHd: "match:" + fr.fl}
+				p := pending{cr: cr, fr: fr, what: "match", impl: fr.implMatch, spec: specM, subs: subsets(knownLetters("fg")), q0: len(*reqs2), classHd: "match:" + fr.fl}
 				for _, s := range p.subs {
 					*reqs2 = append(*reqs2, "match\t"+fr.fl+"\t"+s+"\t"+cr.a+"\t"+cr.b)
 				}
